@@ -1,0 +1,65 @@
+// Copyright © 2022-2026 Obol Labs Inc. Licensed under the terms of a Business Source License 1.1
+
+//go:build verif
+
+// Verification contracts (comments only; read by /verif/govc, never compiled into charon).
+package cmd
+
+// ThresholdSplit is randomised: within one call of getTSSShares each secret is split exactly once, so
+// naming the result as a function of the secret is sound for the clauses below (they never compare two splits).
+//@ pure tbls.ThresholdSplit tbls.SecretToPublicKey tbls.Sign tbls.Aggregate nodeDir cluster.CreateValidatorKeysDir core.VersionedSignedValidatorRegistration.PubKey builderRegistrationFromETH2
+
+// Share j of validator v (0-based position j = share index j+1) is what ThresholdSplit returned under
+// index j+1, and the validator public key is the public key of the secret that was split.
+//@ func getTSSShares
+//@ props C12
+//@ ensures r2 == nil ==> len(r0) == len(secrets) && len(r1) == len(secrets)
+//@ ensures r2 == nil ==> forall(v, 0, len(secrets), r0[v] == res(0, tbls.SecretToPublicKey(secrets[v])) && len(r1[v]) == len(res(0, tbls.ThresholdSplit(secrets[v], uint(numNodes), uint(threshold)))))
+//@ ensures r2 == nil ==> forall(v, 0, len(secrets), forall(j, 0, len(r1[v]), r1[v][j] == res(0, tbls.ThresholdSplit(secrets[v], uint(numNodes), uint(threshold)))[j+1]))
+//@ loop 1 invariant len(dvs) == $i && len(splits) == $i
+//@ loop 1 invariant forall(v, 0, $i, dvs[v] == res(0, tbls.SecretToPublicKey(secrets[v])) && len(splits[v]) == len(res(0, tbls.ThresholdSplit(secrets[v], uint(numNodes), uint(threshold)))))
+//@ loop 1 invariant forall(v, 0, $i, forall(j, 0, len(splits[v]), splits[v][j] == res(0, tbls.ThresholdSplit(secrets[v], uint(numNodes), uint(threshold)))[j+1]))
+//@ loop 2 invariant i >= 1 && i <= len(shares) + 1 && len(secretSet) == len(shares) && forall(j, 0, i - 1, secretSet[j] == shares[j+1])
+//@ canary r2 != nil
+
+// Node i's keystore directory receives, for every validator v in order, share i of that validator.
+//@ func writeKeysToDisk
+//@ props C12
+//@ requires forall(v, 0, len(shareSets), len(shareSets[v]) >= numNodes)
+//@ callreq keystore.StoreKeysInsecure: insecureKeys && a2 == res(0, cluster.CreateValidatorKeysDir(nodeDir(clusterDir, ncalls(keystore.StoreKeysInsecure)))) && len(a1) == len(shareSets) && forall(v, 0, len(shareSets), a1[v] == shareSets[v][ncalls(keystore.StoreKeysInsecure)])
+//@ callreq keystore.StoreKeys: !insecureKeys && a2 == res(0, cluster.CreateValidatorKeysDir(nodeDir(clusterDir, ncalls(keystore.StoreKeys)))) && len(a1) == len(shareSets) && forall(v, 0, len(shareSets), a1[v] == shareSets[v][ncalls(keystore.StoreKeys)])
+//@ ensures result == nil && numNodes >= 0 ==> ncalls(keystore.StoreKeysInsecure) + ncalls(keystore.StoreKeys) == numNodes
+//@ loop 1 invariant ncalls(keystore.StoreKeysInsecure) == ite(insecureKeys, $i, 0) && ncalls(keystore.StoreKeys) == ite(insecureKeys, 0, $i)
+//@ loop 2 invariant len(secrets) == $i && forall(v, 0, $i, secrets[v] == shareSets[v][i])
+//@ canary result != nil
+
+// The lock's validator v carries the validator key v and, at position j, the public key of share j.
+//@ func getValidators
+//@ props C12
+//@ requires len(dvPrivShares) >= len(dvsPubkeys)
+//@ ensures r1 == nil ==> len(r0) == len(dvsPubkeys)
+//@ ensures r1 == nil ==> forall(v, 0, len(r0), r0[v].PubKey == dvsPubkeys[v][:] && len(r0[v].PubShares) == len(dvPrivShares[v]))
+//@ ensures r1 == nil ==> forall(v, 0, len(r0), forall(j, 0, len(dvPrivShares[v]), res(1, tbls.SecretToPublicKey(dvPrivShares[v][j])) == nil && r0[v].PubShares[j] == res(0, tbls.SecretToPublicKey(dvPrivShares[v][j]))[:]))
+//@ loop 1 invariant true
+//@ loop 2 invariant true
+//@ loop 3 invariant len(vals) == $i && forall(v, 0, $i, vals[v].PubKey == dvsPubkeys[v][:] && len(vals[v].PubShares) == len(dvPrivShares[v]))
+//@ loop 3 invariant forall(v, 0, $i, forall(j, 0, len(dvPrivShares[v]), res(1, tbls.SecretToPublicKey(dvPrivShares[v][j])) == nil && vals[v].PubShares[j] == res(0, tbls.SecretToPublicKey(dvPrivShares[v][j]))[:]))
+//@ loop 4 invariant len(pubshares) == $i && forall(j, 0, $i, res(1, tbls.SecretToPublicKey(privShares[j])) == nil && pubshares[j] == res(0, tbls.SecretToPublicKey(privShares[j]))[:])
+//@ loop 5 invariant regIdx == -1
+//@ loop 6 invariant true
+//@ canary r1 != nil
+
+// The aggregate lock signature is made of one signature per share of every validator, each over the message.
+//@ func aggSign
+//@ props C12
+//@ callreq tbls.Sign: a2 == message
+//@ callreq tbls.Aggregate: forall(k, 0, len(a1), exists(v, 0, len(secrets), exists(j, 0, len(secrets[v]), a1[k] == res(0, tbls.Sign(secrets[v][j], message)))))
+//@ callreq tbls.Aggregate: forall(v, 0, len(secrets), forall(j, 0, len(secrets[v]), exists(k, 0, len(a1), a1[k] == res(0, tbls.Sign(secrets[v][j], message)))))
+//@ ensures r1 == nil ==> ncalls(tbls.Aggregate) == 1
+//@ loop 1 invariant forall(k, 0, len(sigs), exists(v, 0, $i, exists(j, 0, len(secrets[v]), sigs[k] == res(0, tbls.Sign(secrets[v][j], message)))))
+//@ loop 1 invariant forall(v, 0, $i, forall(j, 0, len(secrets[v]), exists(k, 0, len(sigs), sigs[k] == res(0, tbls.Sign(secrets[v][j], message)))))
+//@ loop 1 invariant ncalls(tbls.Aggregate) == 0
+//@ loop 2 invariant forall(k, 0, len(sigs), exists(v, 0, $i1 + 1, exists(j, 0, len(secrets[v]), sigs[k] == res(0, tbls.Sign(secrets[v][j], message)) && (v < $i1 || j < $i))))
+//@ loop 2 invariant forall(v, 0, $i1, forall(j, 0, len(secrets[v]), exists(k, 0, len(sigs), sigs[k] == res(0, tbls.Sign(secrets[v][j], message))))) && forall(j, 0, $i, exists(k, 0, len(sigs), sigs[k] == res(0, tbls.Sign(shares[j], message))))
+//@ loop 2 invariant ncalls(tbls.Aggregate) == 0
+//@ canary r1 != nil
